@@ -42,7 +42,7 @@ claimed.update({
   note="Generic fake datapath (the plug-ins' own release logic is C04/C15/C03); 1 session, history <= 3 requests; concurrent teardown triggers are C10.",
   ref="DESIGN.md 6.5"),
  "C08": dict(
-  text="Bounded model checking over token atoms: parseFlowDesc/parseNet/parsePort/parseSDFFilter are executed on a flow description that is an arbitrary sequence of <= 8 (quick) / 10 (thorough) arbitrary tokens; a reference recogniser of the canonical grammar over the same tokens decides acceptance, endpoint networks, ports, protocol, orientation by source interface and the documented port workaround; refused text must keep the UE-address pre-fill. A byte-level harness runs the REAL strings.Fields, strings.Split and strconv.ParseUint on a flow description whose port token is 1..4 (quick) / 1..6 (thorough) arbitrary printable bytes and compares with a byte-level reference, cross-checking the contracts the token-level harnesses assume. PFD management (replace on accept, rollback on every reject exit) and parseApplicationID (direction keyword, verbatim copy, tolerated bad flow) are explored on tables drawn from five flow descriptions.",
+  text="Bounded model checking over token atoms: parseFlowDesc/parseNet/parsePort/parseSDFFilter are executed on a flow description that is an arbitrary sequence of <= 8 (quick) / 10 (thorough) arbitrary tokens; a reference recogniser of the canonical grammar over the same tokens decides acceptance, endpoint networks, ports, protocol, orientation by source interface and the documented port workaround; refused text must keep the UE-address pre-fill. A byte-level harness runs the REAL strings.Fields, strings.Split and strconv.ParseUint on a flow description whose port token is 1..5 (quick) / 1..6 (thorough) arbitrary printable bytes and compares with a byte-level reference, cross-checking the contracts the token-level harnesses assume. PFD management (replace on accept, rollback on every reject exit) and parseApplicationID (direction keyword, verbatim copy, tolerated bad flow) are explored on tables drawn from five flow descriptions.",
   note="strings.Fields/Split, strconv.ParseUint, net.ParseCIDR on atoms are uninterpreted functions under their documented contracts (trusted standard library); counterexamples are inverted to concrete text and replayed natively.",
   ref="DESIGN.md 6.8"),
  "C12": dict(
